@@ -1,4 +1,4 @@
-"""C17 -- remaining class-level refactorings (narrow necessary conditions R17.1-R17.10)."""
+"""C17 -- remaining class-level refactorings (narrow necessary conditions R17.1-R17.11)."""
 from __future__ import annotations
 
 import ast
@@ -24,10 +24,11 @@ EXPLANATION = (
     " R17.8: the pending setter call is closed at the END of the statement's logical line."
     ' R17.9: the global factory is inserted below the last nested scope of the class.'
 )
+EXPLANATION += ' R17.11: the right-hand side of an augmented write is parenthesised in the setter call.'
 ASSUMPTIONS = ["R17.1 and R17.4 share their rule bodies with C04 and C03"]
 
 
-def check(ctx, res) -> None:
+def _check_body(ctx, res) -> None:
     idx = ctx.idx
     classifier_table_rule(ctx, res, "R17.1", "rope.base.worder._RealFinder.get_assignment_type")
 
@@ -210,3 +211,58 @@ def check(ctx, res) -> None:
 
     # ---- R17.10 which imports are added is never decided on the module's text lines
     common.import_presence_rule(ctx, res, "R17.10")
+
+
+def _augmented_write_grouping_rule(ctx, res) -> None:
+    """R17.11: `a.x OP= e` means `a.x = a.x OP (e)`.  Encapsulate field spells the write as `a.set_x(a.get_x() OP <text of e>)`:
+    for `a.x *= 1 + 2` the text `a.get_x() * 1 + 2` regroups.  Where the class closes the setter call (the statement that
+    appends the collected right-hand side + ")"), the right-hand side is wrapped in parentheses on a path that is taken for
+    augmented writes (a guard that goes back to the comparison of the assignment type with "=") -- or the prefix emitted
+    for an augmented write already opens the parenthesis after the operator."""
+    from ..cfg import CFG
+    idx = ctx.idx
+    cls = idx.need_class("rope.refactor.encapsulate_field._FindChangesForModule")
+    # (A) the prefix for augmented writes: a format string with the operator placeholder
+    prefix_opens = False
+    n_prefix = 0
+    for m in cls.methods.values():
+        for x in walk_local(m.node):
+            if isinstance(x, ast.BinOp) and isinstance(x.op, ast.Mod) and isinstance(x.left, ast.Constant) and isinstance(x.left.value, str) and "%s" in x.left.value \
+                    and any(isinstance(y, ast.Subscript) for y in ast.walk(x.right)):
+                n_prefix += 1
+                if x.left.value.rstrip().endswith("("):
+                    prefix_opens = True
+    if n_prefix == 0:
+        raise AnalysisError("anchor=encapsulate_field: the text emitted for an augmented write (`\" %s \" % assignment_type[:-1]`) not found")
+    # the augmented flag: attributes / names assigned from a comparison with "="
+    flags = set()
+    for m in cls.methods.values():
+        for x in walk_local(m.node):
+            if isinstance(x, ast.Assign) and isinstance(x.value, ast.Compare) and any(isinstance(c, ast.Constant) and c.value == "=" for c in x.value.comparators):
+                for t in x.targets:
+                    flags.add(t.attr if is_self_attr(t) else getattr(t, "id", None))
+    wrapped = False
+    where = None
+    for m in cls.methods.values():
+        cfg = CFG(m.node)
+        for nd in cfg.nodes:
+            st = nd.ast
+            if nd.kind != "stmt" or not isinstance(st, ast.Assign) or not isinstance(st.value, ast.BinOp):
+                continue
+            consts = [c.value for c in ast.walk(st.value) if isinstance(c, ast.Constant) and isinstance(c.value, str)]
+            if "(" in consts and ")" in consts and any(isinstance(t, ast.Name) and any(isinstance(y, ast.Name) and y.id == t.id for y in ast.walk(st.value)) for t in st.targets):
+                gs = cfg.guards(nd.id)
+                if any(pol and any((is_self_attr(y) and y.attr in flags) or (isinstance(y, ast.Name) and y.id in flags) or
+                                   (isinstance(y, ast.Compare) and any(isinstance(c, ast.Constant) and c.value == "=" for c in y.comparators)) for y in ast.walk(t))
+                       for t, pol in gs):
+                    wrapped, where = True, f"{m.unit.rel}:{st.lineno}"
+    ok = prefix_opens or wrapped
+    res.add("R17.11", "_FindChangesForModule|augmented-write-keeps-grouping", ok, where or cls.where,
+            "the right-hand side of an augmented write is parenthesised in the setter call" if ok else
+            "the setter text for `a.x OP= e` is `set_x(get_x() OP ` + the text of e + `)` with no parentheses around e: `a.x *= 1 + 2` becomes "
+            "`a.set_x(a.get_x() * 1 + 2)` -- the program still runs and computes 12 instead of 30", function=cls.qualname)
+
+
+def check(ctx, res) -> None:
+    _check_body(ctx, res)
+    _augmented_write_grouping_rule(ctx, res)
